@@ -26,6 +26,12 @@ CLAIMED = {
          "bounds: filter 1..4 bytes (1..2 for the transaction harness; 8/4 thorough), 1..3 hash functions, elements 0..5 bytes plus 21/32/34-byte hashes and outpoints, <= 2 outputs / 2 inputs; SHA-256 of a symbolic transaction is an uninterpreted function; multiplications/remainders are first abstracted as uninterpreted functions (sound for unsat) and every sat verdict is re-decided exactly; empty filters (division by zero) are a C03 question and excluded; false-positive rate and NewFilter sizing not encoded"),
  "C11": ("4 C11", "Configuration.GetBlockReward / newRewardPerBlock for all uint32 heights on the mainnet, testnet and regnet parameter sets (IEEE-754 semantics, math.Pow(2,k) encoded exactly through the exponent field): never negative, and non-increasing in height from NewELAIssuanceHeight on. BlockChain.checkCoinbaseTransactionContext in the DPoS-v2 era with symbolic height, fee total, 2..4 coinbase outputs of arbitrary value and address: accepted => exactly three outputs summing to subsidy + fees, CR share ceil(0.3 total), DPoS share ceil(0.35 total), CR/DPoS outputs at the configured addresses (destroy address in PoW mode). The same through checkTxsContext / GetBlockDPOSReward for a coinbase-only block.",
          "bounds: fees in [0, 2^53]; coinbase with >= 2 outputs (CoinBaseTransaction.CheckTransactionOutput rejects fewer); v2 heights >= CheckRewardHeight (true on all shipped networks; below it checkTxsContext deliberately ignores the verdict); symbolic halving interval/heights only in the thorough tier; eras before v2, pow.Service.AssignCoinbaseTxRewards and the agreement of tx.Fee() with GetTxFee are not encoded; decided by cvc5 (FP)"),
+ "C17": ("4 C17", "Flat-file half of crash safety, on the real blockStore over an in-memory filer installed through the production seams openFileFunc/openWriteFileFunc/deleteFileFunc: commit 1 stores a block, commit 2 stores two more and stops at an arbitrary WriteAt (any of 8, with an arbitrary prefix of that write applied) or at the final Sync, with or without file rollover inside commit 2; the store is reopened from the surviving files, rolled back to the persisted cursor as reconcileDB does (handleRollback), and then: the cursor equals the persisted one, no file lies beyond it, the write file ends exactly there, the committed block reads back byte-for-byte with a valid checksum, a later commit succeeds and reads back. Same for a transient (non-fatal) write failure followed by the rollback closure of writePendingAndCommit.",
+         "bounds: blocks of 0..3 symbolic bytes, 3 rollover configurations, 9 crash points x 5 partial lengths; CRC-32 over symbolic bytes is an uninterpreted function of the stream; the metadata side (leveldb batch atomicity, dbCache.flush/commitTx), scanBlockFiles on a real directory and reconcileDB's own comparison (inline in a function that needs a leveldb handle; replicated in the harness) are outside the claim, so 'metadata never a mixture' is not decided"),
+ "C18": ("4 C18", "Two blocks of symbolic content (0..4 bytes) written back to back with and without file rollover through blockStore.writeBlock, indexed through the real bucket.Put of a transaction whose metadata lives in its pending-key treap, then transaction.FetchBlock returns exactly the stored bytes and FetchBlockRegion / FetchBlockRegions with arbitrary uint32 offset and length return exactly raw[off:off+len] when the region lies within the block and fail otherwise; same for a block still pending in the transaction.",
+         "bounds: block length <= 4 bytes, 2 blocks; CRC-32 uninterpreted; StoreBlock's duplicate check and the commit path (leveldb) are not encoded: the harness records the pending block / index row the way StoreBlock / writePendingAndCommit do; reopen is covered by C17's harness"),
+ "C19": ("4 C19", "database/internal/treap (in-package overlay harness): sequences of Put/Delete with arbitrary one-byte keys and values and arbitrary distinct node priorities (math/rand draws are symbolic) on Mutable; every retained version of Immutable after later updates; Iterator Seek/First/Last/Next/Prev: Len, Size, Has, Get, ForEach and iteration agree with a ghost ordered map.",
+         "bounds: 3 operations (4 thorough) + one optional delete for the iterator harness; keys and values one byte; priorities pairwise distinct (a 63-bit tie has negligible probability and cannot be replayed natively); iterator limits (start/limit keys) and ForceReseek not encoded"),
 }
 
 # thorough tier (deeper bounds + every unsat cross-checked with z3 5.1.0) is
@@ -44,9 +50,6 @@ NA = {
  "C14": "indexers read and write ffldb buckets: not encodable (see C13)",
  "C15": "cache transparency is a history property over go-cache / map-backed structures with database fall-through: not built",
  "C16": "ffldb over leveldb + treap with real file I/O: the code the property depends on cannot be encoded",
- "C17": "crash points inside file-system writes: needs an I/O fault model the engine does not have",
- "C18": "readBlockRegion offset arithmetic is encodable but sits behind file handles (os.File, lru of open files); harness not built",
- "C19": "treap operations are pointer-rich recursive heap structures with random priorities; bounded harness not built in this session",
  "C21": "State.processTransactions over full blocks: too large to execute symbolically; self-contained sub-state harness not built",
  "C22": "same as C21 for cr/state",
  "C23": "checkpoint Serialize/Deserialize round trip over maps of producers: encodable in principle, not built in this session",
